@@ -95,6 +95,7 @@ var directedClasses = []directedClass{
 	{"empty-piece", []string{"text-degree", "text-syllable", "yaml", "yaml-empty-list"}},
 	{"zero-meter", []string{"text-degree", "yaml", "flag"}},
 	{"zero-denominator-meter", []string{"text-degree", "yaml", "flag"}},
+	{"meter-beyond-the-format", []string{"text-degree", "yaml", "flag"}},
 	{"impossible-interval", []string{"text-degree", "yaml", "yaml-base"}},
 	{"degree-zero", []string{"text-degree", "yaml"}},
 	{"null-instance", []string{"yaml", "yaml-event", "yaml-parse", "yaml-conv"}},
@@ -317,14 +318,22 @@ func checkC09Directed(c C09Directed) *Violation {
 			res := Run{Argv: writeArgs, Stdin: "[]\n"}.Exec()
 			return mustFail(res, "write of an empty list")
 		}
-	case "zero-meter", "zero-denominator-meter":
+	case "zero-meter", "zero-denominator-meter", "meter-beyond-the-format":
 		bad := "0/4"
 		if c.Class == "zero-denominator-meter" {
 			bad = "4/0"
 		}
+		if c.Class == "meter-beyond-the-format" {
+			// a time-signature event has one byte for the numerator and a power of two as denominator: what it cannot
+			// say is refused, not wrapped into a meter it can say
+			bad = pickFrom(seed, []string{"260/4", "4/260", "256/4", "65536/4", "300/8", "4/3", "7/6", "516/8", "4/258"})
+		}
 		switch c.Channel {
 		case "text-degree":
 			sent[at].Meta = append(sent[at].Meta, [2]string{"mtr", bad})
+			if c.Class == "meter-beyond-the-format" {
+				firstFailing = "write" // the text language has no such limit; the file has
+			}
 		case "yaml":
 			yamlOverride = strings.Replace(doc.YAML(), "- values:", "- meter: "+yq(bad)+"\n  values:", 1)
 			firstFailing = "write"
